@@ -697,6 +697,11 @@ def note_mod_rules(repo: Repo, rep, P: str):
     gi = note.getters.get("module_index")
     if s is None or gm is None or gi is None:
         raise AnchorMissing("Note.mod / Note.module_index")
+    from .. import inline as _il
+    # named constants (`_NO_MODULE = 0`, `_MODULE_NUMBER_BASE = 1`) are read as their values
+    s = _il.fold_module_names(repo, note.file, _il.normalize(repo, note, s), ci=note)
+    gi = _il.fold_module_names(repo, note.file, gi, ci=note)
+    gm = _il.fold_module_names(repo, note.file, gm, ci=note)
     sp = [a.arg for a in s.args.args if a.arg != "self"][0]
     store = None
     for n in walk_no_nested(s):
@@ -745,7 +750,7 @@ def note_mod_rules(repo: Repo, rep, P: str):
         rep.inconclusive(f"{P}.R5", f"{rel}:Note.module_index", norm(gi)[:120],
                          "module_index is not a two-way conditional on self.module: shape not recognised", f"{rel}:{gi.lineno}")
     # mod: project.modules[module_index] exactly when module_index is set and in range, None otherwise
-    gmn = inline.normalize(repo, note, gm, aliases=True)
+    gmn = inline.split_ifexp_returns(inline.normalize(repo, note, gm, aliases=True))
     g = CFG(gmn)
     paths = g.paths(g.entry, [g.exit], max_visits=1, limit=2000, labels_excluded=("exc",))
     bad = []
